@@ -157,6 +157,8 @@ def evaluate_probe(probe):
     """In a grandchild of the pristine zygote: no other environment ever existed here."""
     warnings.simplefilter("ignore")
     CLOCK.set(clock.EPOCH_US)
+    if probe["kind"] == "variation":
+        return _run_variation(probe["probes"])
     if probe["kind"] == "implicit":
         data = build_data(probe["data"], None)
         custom = norm(outcome(lambda: liquid.Template(probe["source"], **probe["kwargs"]).render(**data)))
@@ -225,10 +227,9 @@ class C11:
     LEVEL = "exploration"
     NO_PIN = True   # no baton threads here: let the OS scheduler place the workers
     RUN_S = 240
-    RUNS_FORK_THEMSELVES = True
     TIERS = {
-        "quick": {"runs": 2400, "budget_s": 60, "chunk": 4, "determinism_runs": 12, "minimise_s": 30},
-        "thorough": {"runs": 400000, "budget_s": 1200, "chunk": 8, "determinism_runs": 64, "minimise_s": 240},
+        "quick": {"runs": 40000, "budget_s": 55, "chunk": 8, "determinism_runs": 24, "minimise_s": 40},
+        "thorough": {"runs": 2000000, "budget_s": 1200, "chunk": 16, "determinism_runs": 128, "minimise_s": 240},
     }
     RULE = ("Each run is one seeded history over 2-5 environment specs (delimiters of length 1-4 from characters the "
             "templates do not use, pairwise non-colliding; several specs share delimiters and mode but differ in "
@@ -258,6 +259,10 @@ class C11:
 
     def process_init(self):
         fork.init_zygote(evaluate_probe)
+        fork.init_companion(evaluate_probe)
+
+    def trial_init(self):
+        fork.init_companion(evaluate_probe)
 
     # -- generation ------------------------------------------------------------
     def gen(self, run_seed, tier):
@@ -364,7 +369,9 @@ class C11:
         # fork, in REVERSED order, each in a freshly built environment together with its canonical
         # default-delimiter rewriting; (C) a sample of the probes in the pristine fork, where no
         # other environment ever existed.
-        res = fork.run_in_fork(self._run_here, sc, timeout_s=900)
+        # (A) in THIS process (the driver records each worker's history and replays a violation
+        # that needs earlier histories with that prelude); (B), (C) in children of the pristine zygote
+        res = self._run_here(sc)
         probes = res.pop("probes")
         st = res["stats"]
         viol = res["violations"]
@@ -373,18 +380,19 @@ class C11:
 
         def add(oracle, sig, detail):
             viol.append({"oracle": oracle, "sig": sig, "detail": detail})
-        var = fork.run_in_fork(_run_variation, [p["probe"] for p in reversed(probes)])
-        bump(st, "variation_forks")
+        zy = fork.zygote()
+        var = fork.companion().ask({"kind": "variation", "probes": [p["probe"] for p in reversed(probes)]})
+        bump(st, "variation_batches")
         for p, (custom, canon) in zip(reversed(probes), var):
             bump(st, "reach.order_variation_compared")
             self._judge(add, p["op"], p["got"], tuple(custom), tuple(canon), p["kind"], p["delims"], "order")
             if viol:
                 return res
-        zy = fork.zygote()
         f0 = zy.forks
         rng = Rng(len(probes) * 7919 + sum(p["uid"] for p in probes), ("pristine-sample",))
-        chosen = [probes[-1]] + [p for p in probes[:-1] if rng.chance(0.15)]
-        for p in chosen[:3]:
+        # (C) one probe of some histories in a process where no other environment ever existed
+        chosen = [rng.choice(probes)] if rng.chance(0.15) else []
+        for p in chosen:
             res["states"].append(int(p["key"][:12], 16))
             custom, canon = zy.ask(p["key"], p["probe"])
             bump(st, "reach.pristine_compared")
